@@ -17,3 +17,20 @@ def hpoa_text(k):
     for j in range(k + 1):
         rows.append(f'OMIM:10000{j}\tDisease {j}\t\tHP:000000{j + 2}\tPMID:{j + 1}\tPCS\t\t{j + 1}/{j + k + 2}\t\t\tP\tHPO:x[2020-01-01]')
     return '\n'.join(rows) + '\n'
+
+
+def chained_docs(rng, prefix):
+    """documents A and B where the subject of A's LAST is_a edge is the subject of B's FIRST is_a edge, at different
+    positions of the two sorted node arrays (state kept by a shared graph factory between loads shows)"""
+    def node(i):
+        return {'id': PURL + '%s_%07d' % (prefix, i), 'lbl': 'term %d' % i, 'type': 'CLASS'}
+
+    def edge(a, b):
+        return {'sub': PURL + '%s_%07d' % (prefix, a), 'pred': 'is_a', 'obj': PURL + '%s_%07d' % (prefix, b)}
+    shared = 50
+    a_ids = [1, 2, 3, shared]
+    b_ids = [10, 20, 30, 40, 45, shared, 60]
+    doc_a = {'graphs': [{'id': 'a', 'meta': {}, 'nodes': [node(i) for i in a_ids], 'edges': [edge(2, 1), edge(3, 1), edge(shared, 2)]}]}
+    doc_b = {'graphs': [{'id': 'b', 'meta': {}, 'nodes': [node(i) for i in b_ids],
+                         'edges': [edge(shared, 10), edge(20, 10), edge(30, 20), edge(40, 20), edge(45, 30), edge(60, 45)]}]}
+    return [doc_a, doc_b, doc_a]
